@@ -98,6 +98,8 @@ pub struct Seams {
     pub clock: u64,
     pub getpid: u64,
     pub getenv: u64,
+    /// threads created after the start mark (the session's own workers included)
+    pub threads: u64,
     pub names: Vec<String>,
 }
 
@@ -274,6 +276,7 @@ pub fn run_child(ctx: &Ctx, env: &Env, sched: &Schedule, durable: &Durable) -> R
                         "clock" => seams.clock = v.parse().unwrap_or(0),
                         "getpid" => seams.getpid = v.parse().unwrap_or(0),
                         "getenv" => seams.getenv = v.parse().unwrap_or(0),
+                        "threads" => seams.threads = v.parse().unwrap_or(0),
                         "names" => seams.names = v.split(',').filter(|x| !x.is_empty()).map(|x| x.to_string()).collect(),
                         _ => {}
                     }
@@ -518,11 +521,13 @@ pub fn gen_session(seed: u64, index: u64, c: &Corpus) -> Session {
         return gen_wrap_session(seed, index, c);
     }
     let big = !hot && r.chance(1, 8);
-    workload::SCALE.with(|s| s.set(if big { 4 } else { 1 }));
+    // and one session in 16 uses *giant* items (40x: hundreds of variants / fields), few of them
+    let giant = !hot && !big && r.chance(1, 14);
+    workload::SCALE.with(|s| s.set(if giant { 40 } else if big { 4 } else { 1 }));
     let len = if hot { *r.pick(&[1500usize, 3000, 5000]) } else { *r.pick(&[8usize, 12, 20, 20, 30, 40, 60, 60, 100, 160, 250, 400, 20, 40, 60, 1200]) };
     let workers = *r.pick(&[1usize, 1, 2, 2, 3, 4]);
     // a hot session carries hundreds of *distinct* generated items of its focus family
-    let n_family = if hot { r.range(150, 400) } else { r.range(1, 6) };
+    let n_family = if hot { r.range(150, 400) } else if giant { r.range(6, 14) } else { r.range(1, 6) };
     let n_base = r.range(3, 40);
     let fault_rate = *r.pick(&[0usize, 5, 10, 20]); // percent of requests that are fault requests
     let kill_rate = *r.pick(&[0usize, 0, 25, 50]); // percent of fault requests served without catch_unwind
@@ -811,6 +816,8 @@ pub struct Stats {
     pub dim_cwd_subdir: u64,
     pub long_processes: u64,
     pub racy_sessions: u64,
+    pub sut_threaded_sessions: u64,
+    pub seam_threads_surplus: u64,
 }
 
 fn key_hash(k: &Key) -> u64 {
@@ -852,7 +859,16 @@ pub fn check_session(ctx: &Ctx, refs: &RefCache, s: &Session, st: &mut Stats, se
                     st.racy_sessions += 1;
                     ctx.racy.fetch_add(1, std::sync::atomic::Ordering::Relaxed);
                 } else if outs.iter().zip(outs2.iter()).any(|(a, b)| a.raw != b.raw) {
-                    st.nondeterministic.push(s.index);
+                    // same answers, other addresses. If the code under simulation created threads of its own
+                    // (more than the session's workers and their replacements), the layout is no longer the
+                    // simulator's to fix; otherwise the simulator itself is at fault.
+                    let own: u64 = s.segments.iter().zip(outs.iter()).map(|(seg, o)| seg.sched.workers.max(1) as u64 + o.obs.iter().filter(|x| x.died).count() as u64).sum();
+                    let seen: u64 = outs.iter().map(|o| o.seams.threads).sum();
+                    if seen > own {
+                        st.sut_threaded_sessions += 1;
+                    } else {
+                        st.nondeterministic.push(s.index);
+                    }
                 }
             }
             Err(e) => st.errors.push(format!("session {} (rerun): {}", s.index, e)),
@@ -865,6 +881,7 @@ pub fn check_session(ctx: &Ctx, refs: &RefCache, s: &Session, st: &mut Stats, se
         st.seam_clock += out.seams.clock;
         st.seam_getpid += out.seams.getpid;
         st.seam_getenv += out.seams.getenv;
+        st.seam_threads_surplus += out.seams.threads.saturating_sub(seg.sched.workers.max(1) as u64 + out.obs.iter().filter(|x| x.died).count() as u64);
         for n in &out.seams.names {
             st.seam_names.insert(n.clone());
         }
@@ -1350,6 +1367,8 @@ pub fn run_batch(ctx: Arc<Ctx>, corpus: Arc<Corpus>, refs: Arc<RefCache>, seed: 
         total.dim_cwd_subdir += s.dim_cwd_subdir;
         total.long_processes += s.long_processes;
         total.racy_sessions += s.racy_sessions;
+        total.sut_threaded_sessions += s.sut_threaded_sessions;
+        total.seam_threads_surplus += s.seam_threads_surplus;
         total.entropy_seeds.extend(s.entropy_seeds);
         total.layouts.extend(s.layouts);
         for (k, v) in s.key_contexts {
